@@ -156,8 +156,13 @@ public:
         break;
       }
 
-      // If this is a newline continuation, skip it and all leading space.
+      // If this is a newline continuation, skip it and all leading space. The
+      // newline may be a CR-LF pair, which the lexer accepts as well.
       int c = *pos;
+      if (c == '\r' && pos + 1 != end && pos[1] == '\n') {
+        ++pos;
+        c = *pos;
+      }
       if (c == '\n') {
         ++pos;
         while (pos != end && isspace(*pos))
